@@ -114,8 +114,8 @@ pub open spec fn listed_item_frags(p: PayloadRef, first: bool) -> Seq<Frag> {
 // ASSUMED (tokenisation): a buffer extended by exactly the fragments of one listed item is
 // extended by exactly one Item token
 pub broadcast axiom fn axiom_item_token(b1: Seq<u8>, b2: Seq<u8>, p: PayloadRef, first: bool)
-    ensures frags(b2) == frags(b1) + listed_item_frags(p, first)
-        ==> #[trigger] trace(b2) == #[trigger] trace(b1).push(Tok::Item(p, first));
+    ensures #[trigger] frags(b2) == #[trigger] frags(b1) + #[trigger] listed_item_frags(p, first)
+        ==> trace(b2) == trace(b1).push(Tok::Item(p, first));
 
 // The leaf appenders of DeltaStream (ASSUMED contracts; bodies are format strings).
 impl DeltaStream {
@@ -190,7 +190,7 @@ impl SnapshotStream {
 //@ entry
         let ghost s0 = self.sn();
         let ghost p0 = self.iter->Some_0.pos();
-        broadcast use axiom_trace_empty, axiom_bytes_of, lemma_push_concat;
+        broadcast use axiom_trace_empty, axiom_bytes_of, lemma_push_concat, axiom_item_token;
 //@ loop 1
             invariant
                 iter.wf(), *iter.snapshot == *s0, self.header is None,
@@ -201,7 +201,7 @@ impl SnapshotStream {
                 trace(vec@) + snap_rest(s0, iter.pos(), first) + seq![Tok::Footer] == old(self).rest(s0),
             decreases snap_len(s0) - iter.pos(),
 //@ loopentry 1
-            broadcast use axiom_trace_empty, axiom_bytes_of, lemma_push_concat;
+            broadcast use axiom_trace_empty, axiom_bytes_of, lemma_push_concat, axiom_item_token;
 //@ fn DeltaStream::append_payload
 //@ spec
     ensures
@@ -209,10 +209,9 @@ impl SnapshotStream {
         // providers (zero included), exactly: separator unless first, then the item's object;
         // an ASPA's providerAsns array has one element per provider, bracket opened and closed once
         frags(final(vec)@) == frags(old(vec)@) + listed_item_frags(payload, first),
-        // C18: hence exactly one item token
-        trace(final(vec)@) == trace(old(vec)@).push(Tok::Item(payload, first)),
 //@ entry
-        broadcast use axiom_frags_comma, axiom_item_token, lemma_push_concat;
+        broadcast use axiom_frags_comma, lemma_push_concat;
+        let ghost b0 = vec@;
         let ghost f0 = frags(vec@);
 //@ beforeloop 1
                 let ghost f1 = frags(vec@);
@@ -246,7 +245,7 @@ impl SnapshotStream {
 //@ entry
         let ghost d0 = self.dl();
         let ghost p0 = self.announce->Some_0.pos();
-        broadcast use lemma_push_concat;
+        broadcast use lemma_push_concat, axiom_item_token;
 //@ loop 1
                 invariant
                     old(self).header is None, old(self).withdraw is Some, old(self).announce is Some,
@@ -261,7 +260,7 @@ impl SnapshotStream {
                         == rest_items(d0, p0, Action::Announce, self.first),
                 decreases flat_len(d0) - announce.pos(),
 //@ loopentry 1
-                broadcast use lemma_push_concat;
+                broadcast use lemma_push_concat, axiom_item_token;
 //@ fn DeltaStream::next_withdraw
 //@ spec
     requires
@@ -279,7 +278,7 @@ impl SnapshotStream {
 //@ entry
         let ghost d0 = self.dl();
         let ghost p0 = self.withdraw->Some_0.pos();
-        broadcast use lemma_push_concat;
+        broadcast use lemma_push_concat, axiom_item_token;
 //@ loop 1
                 invariant
                     old(self).header is None, old(self).withdraw is Some, old(self).announce is None,
@@ -293,7 +292,7 @@ impl SnapshotStream {
                         == rest_items(d0, p0, Action::Withdraw, self.first),
                 decreases flat_len(d0) - withdraw.pos(),
 //@ loopentry 1
-                broadcast use lemma_push_concat;
+                broadcast use lemma_push_concat, axiom_item_token;
 //@ fn DeltaStream::next
 //@ spec
     requires
